@@ -342,9 +342,12 @@ fn run_case(ctx: &Ctx, index: u64, rep: &mut Report) {
     match ctx.workload.as_str() {
         "random" | "exhaustive" => {
             let exhaustive = ctx.workload == "exhaustive";
+            let boost = rng.chance(1, 3);
             let opts = GenOpts {
                 inputs: true, stops: false, kf_permille: 0, failure_permille: 60,
                 max_main_blocks: if exhaustive { 2 } else { 8 },
+                // (more INPUTs, also into array cells whose subscript has an effect: the subscript is evaluated once, when the reply is stored)
+                input_boost: boost,
                 ..GenOpts::default()
             };
             let mut g = prog::generate(&mut rng, &opts);
@@ -385,6 +388,29 @@ fn run_case(ctx: &Ctx, index: u64, rep: &mut Report) {
             let mut any_nontrivial = false;
             for mut sched in schedules {
                 let Some(mut sess) = load(&g, seed) else { return };
+                // a fifth of the interrupted runs happen on an interpreter with a past: an earlier run of the same program
+                // that was broken into at its first input request (or after some turns) and abandoned without CONT
+                if !exhaustive && rng.chance(1, 5) {
+                    sess.call(Op::Line("RUN".into()));
+                    let mut guard = 0;
+                    while !sess.poisoned && sess.state() == InterpreterState::Running && guard < 150 {
+                        if !sess.call(Op::Cont).res.is_ok() {
+                            break;
+                        }
+                        guard += 1;
+                    }
+                    if !sess.poisoned && matches!(sess.state(), InterpreterState::Running | InterpreterState::AwaitingInput) {
+                        sess.call(Op::Break);
+                        rep.count("runs_after_an_abandoned_run");
+                    }
+                    if sess.poisoned {
+                        flush_trips(ctx, rep, index, &sess, || exec::program_json(&g.prog));
+                        return;
+                    }
+                    sess.settle();
+                    // same generator state as the reference run
+                    sess.call(Op::Randomize(seed));
+                }
                 let mut st = new_stats();
                 let mut problems = vec![];
                 let t = drive(&mut sess, &g.replies, &mut rng, &mut *sched, max_insp, &mut st, &mut problems);
